@@ -177,6 +177,9 @@ def one_model(args):
         # 3. Python package: image (C04 C09 C10 C13 static) and codec sessions on the touched declarations (C01 C02 C03 C10)
         if "python" in outs:
             pkg = scratch_package(work, os.path.join(outs["python"], "lsprotocol", "types.py"))
+            ef, _ = check_image.emit_order(os.path.join(outs["python"], "lsprotocol", "types.py"), mpath)
+            for f in ef:
+                fail("python-emission", f["c"], f["pos"])
             res = check_image.run(model=mpath, pkg_path=pkg)
             for f in res["fails"]:
                 fail("python-image", f["c"], f["pos"])
